@@ -911,6 +911,7 @@ func concat(w ast.Word) ast.Word {
 }
 
 func (l *lexer) scanArithExpr(pos ast.Pos) int {
+	var stray ast.Pos
 	for {
 		r, err := l.read()
 		if err != nil {
@@ -925,12 +926,21 @@ func (l *lexer) scanArithExpr(pos ast.Pos) int {
 			// operator
 			switch l.scanOp(r) {
 			case RAE:
+				if !stray.IsZero() {
+					l.error(stray, "syntax error: unexpected ')'")
+					return -1
+				}
 				l.lit()
 				return RAE
 			case LAE:
 				// (both parentheses have been read)
 				l.b.WriteString("((")
 			default:
+				if r == ')' && l.paren <= l.arithParen && stray.IsZero() {
+					// neither closes a "(" of the expression nor is half of
+					// "))": the expression cannot be closed any more
+					stray = ast.NewPos(l.line, l.col-1)
+				}
 				l.b.WriteByte(byte(r))
 			}
 		case '\\', '\'', '"':
